@@ -147,12 +147,15 @@ inline std::vector<long double> jacobi(const Rows& a, std::vector<std::vector<lo
 		v[i][i] = 1;
 		for(int j = 0; j < n; j++) m[i][j] = a[i][j];
 	}
+	long double fro2 = 0;
+	for(int i = 0; i < n; i++)
+		for(int j = 0; j < n; j++) fro2 += m[i][j] * m[i][j];
 	for(int sweep = 0; sweep < 100; sweep++)
 	{
 		long double off = 0;
 		for(int i = 0; i < n; i++)
 			for(int j = i + 1; j < n; j++) off += m[i][j] * m[i][j];
-		if(off < 1e-60L) break;
+		if(off <= 1e-42L * fro2) break;	// relative to the matrix: the reference must not depend on the overall scale
 		for(int p = 0; p < n; p++)
 			for(int r = p + 1; r < n; r++)
 			{
